@@ -115,6 +115,7 @@ fn fixed_cases() -> Vec<PriceCase> {
     let l = |m: i64, s: u32, c: usize| VE::Amt(Lit { m, scale: s, comm: Some(c), grouped: false });
     let hold = |d: i32, acct: usize, m: i64, s: u32, c: usize| {
         Entry::Txn(Txn {
+            effective: None,
             date: d,
             posts: vec![
                 Posting { account: acct, amount: Some(l(m, s, c)), cost: None, lot: None, balance: None },
@@ -124,6 +125,7 @@ fn fixed_cases() -> Vec<PriceCase> {
     };
     let quote = |d: i32, x: usize, m: i64, s: u32, y: usize| {
         Entry::Txn(Txn {
+            effective: None,
             date: d,
             posts: vec![
                 Posting { account: EQUITY, amount: Some(l(0, 0, x)), cost: Some(Exch::Rate(l(m, s, y))), lot: None, balance: None },
@@ -152,7 +154,20 @@ fn fixed_cases() -> Vec<PriceCase> {
 
 fn gen_queries(r: &mut Rng, case: &PriceCase, evs: &[Ev], thorough_pairs: bool) -> Vec<BQ> {
     let txn_dates: Vec<i32> = case.entries.iter().filter_map(|e| if let Entry::Txn(t) = e { Some(t.date) } else { None }).collect();
-    let dates = query_dates(r, evs, &txn_dates, 6);
+    // [date, effective) or [effective, date) of every transaction that has an effective date: a
+    // report dated inside sees the transaction's own rates iff they are dated at the date
+    let windows: Vec<(i32, i32)> = case
+        .entries
+        .iter()
+        .filter_map(|e| match e {
+            Entry::Txn(Txn { date, effective: Some(ed), .. }) if ed != date => Some((*date.min(ed), *date.max(ed))),
+            _ => None,
+        })
+        .filter(|(lo, _)| *lo >= 0)
+        .collect();
+    let mut around: Vec<i32> = txn_dates.clone();
+    around.extend(windows.iter().flat_map(|(lo, hi)| [*lo, *hi]));
+    let dates = query_dates(r, evs, &around, 6);
     let known = known_commodities(case);
     let mut out = Vec::new();
     if thorough_pairs {
@@ -172,7 +187,10 @@ fn gen_queries(r: &mut Rng, case: &PriceCase, evs: &[Ev], thorough_pairs: bool) 
         let n_variants = 4;
         for v in 0..n_variants {
             // later report dates (more prices known) somewhat more often
-            let now = if v % 2 == 0 {
+            let now = if v % 2 == 0 && !windows.is_empty() && r.chance(1, 3) {
+                let (lo, hi) = *r.pick(&windows);
+                Some(lo + r.below((hi - lo) as u64) as i32)
+            } else if v % 2 == 0 {
                 Some(if r.chance(1, 2) { dates[dates.len() - 1 - r.below(((dates.len() + 1) / 2) as u64) as usize] } else { *r.pick(&dates) })
             } else {
                 None
@@ -315,6 +333,21 @@ fn run_case(sh: &mut Shards, st: &mut Stats, scratch: &cli::Scratch, r: &mut Rng
     }
     let nfmt = case.entries.iter().filter(|e| matches!(e, Entry::Format(..))).count();
     st.add("shape:format_decl", nfmt as u64);
+    let mut windows: Vec<(i32, i32, bool)> = Vec::new();
+    for e in &case.entries {
+        if let Entry::Txn(t) = e {
+            let priced = t.posts.iter().any(|p| p.cost.is_some() || p.lot.is_some()) || t.posts.iter().filter(|p| p.amount.is_some()).count() >= 2;
+            match t.effective {
+                Some(ed) if ed > t.date => st.count(if priced { "txn:effective_later(states a rate)" } else { "txn:effective_later" }),
+                Some(ed) if ed < t.date => st.count(if priced { "txn:effective_earlier(states a rate)" } else { "txn:effective_earlier" }),
+                Some(_) => st.count("txn:effective_same_day"),
+                None => st.count("txn:no_effective_date"),
+            }
+            if let Some(ed) = t.effective {
+                windows.push((t.date.min(ed), t.date.max(ed), priced));
+            }
+        }
+    }
     for q in &qs {
         let converted_or_refused = match &q.api {
             BObs::Ok(_) => held.iter().any(|c| *c != q.target),
@@ -328,6 +361,13 @@ fn run_case(sh: &mut Shards, st: &mut Stats, scratch: &cli::Scratch, r: &mut Rng
             (Some(_), false) => "query:up_to_date",
             (Some(_), true) => "query:up_to_date+range",
         });
+        match q.now {
+            Some(n) if windows.iter().any(|(lo, hi, priced)| *priced && *lo <= n && n < *hi) => {
+                st.count("query:now_between_date_and_effective_of_a_rate")
+            }
+            None if windows.iter().any(|(lo, hi, priced)| *priced && lo != hi) => st.count("query:historical_with_effective_dated_rate"),
+            _ => {}
+        }
         match &q.api {
             BObs::Ok(_) => st.count("impl:report"),
             BObs::NotFound(_) => st.count("impl:rate_not_found"),
@@ -399,7 +439,7 @@ pub fn run(o: &Opts) {
     let mut st = Stats::new();
     let header = "From Coq Require Import List NArith ZArith QArith Qcanon.\nFrom Okv Require Import Base.Maps Base.Dec Model.Amount Model.Book Model.PriceDb Model.Convert Run.LedgerCase Run.PriceCase Run.Classify_C10.\nImport ListNotations.\nOpen Scope N_scope.";
     let mut sh = Shards::new(&o.out, o.shards, header);
-    st.rule = "accepted multi-commodity ledgers from the C09 generator in its rich form (1-8 prices from costs, lot prices, implied exchanges and a price-DB file; 1-4 extra holdings in several accounts and commodities with values that need rounding; format declarations with 0/2/3 places), every known commodity as target with 4-5 queries each: historical / up-to-date at a date around the price dates, with no range, start only, end only or both; observed through Ledger::balance(conversion: Some(..)) and (a sample) `okane balance -X T [--historical] --now D [--start --end]` in-process; includes targets for which a needed rate is missing. One evaluation = one query; non-trivial = at least 2 commodities held and at least one conversion performed or refused; distinct by (ledger text, price-DB text, query)".into();
+    st.rule = "accepted multi-commodity ledgers from the C09 generator in its rich form (1-8 prices from costs, lot prices, implied exchanges and a price-DB file; 1-4 extra holdings in several accounts and commodities with values that need rounding; format declarations with 0/2/3 places; about 4 in 9 transactions written DATE=EFFECTIVE with the effective date later, earlier or equal, and up-to-date reports dated between the two), every known commodity as target with 4-5 queries each: historical / up-to-date at a date around the price dates, with no range, start only, end only or both; observed through Ledger::balance(conversion: Some(..)) and (a sample) `okane balance -X T [--historical] --now D [--start --end]` in-process; includes targets for which a needed rate is missing. One evaluation = one query; non-trivial = at least 2 commodities held and at least one conversion performed or refused; distinct by (ledger text, price-DB text, query)".into();
     st.assumptions.push("exact stream: rates and priced quantities are products of powers of 2 and 5 (exact Decimal division), reports compared exactly; arbitrary-rate stream compared with relative tolerance 1e-18".into());
     st.assumptions.push("where an amount to be converted has several optimal chains with different rates (genuine tie) only success/failure and the result commodity are checked".into());
     st.assumptions.push("historical conversion needs a rate for every commodity entry of every posting in range, zero-valued entries included (Amount keeps `0 X` entries)".into());
